@@ -128,7 +128,7 @@ func main() {
 			cmd := exec.Command(os.Args[0], "-check", *check, "-tier", *tier, "-seed", fmt.Sprint(*seed),
 				"-worker", fmt.Sprintf("%d/%d", i, n), "-out", outf, "-verif", *verif, "-budget", budget.String())
 			cmd.Stderr = os.Stderr
-			cmd.Env = append(os.Environ(), "GOMAXPROCS=2")
+			cmd.Env = append(os.Environ(), "GOMAXPROCS=2", "VERIF_WORKER_OUT="+outf)
 			err := cmd.Run()
 			b, rerr := os.ReadFile(outf)
 			if err != nil || rerr != nil {
